@@ -89,42 +89,66 @@ Proof.
     + apply nth_overflow. rewrite repeat_length. exact Lk.
 Qed.
 
-(* the matrix of the expected record of a well-formed printed record *)
-Theorem expected_cells_lemma :
-  forall (al : alpha) (p : prec) (idx : list nat),
-  prec_ok al p = true -> p_syms p <> [] -> sym_indices al (p_syms p) = Some idx ->
-  exists m, r_data (expected_record al p) = Some m /\ length m = length (p_rows p) /\
-  forall i, i < length (p_rows p) ->
+(* the matrix produced by a well-formed matrix block *)
+Theorem matrix_item_cells :
+  forall (al : alpha) (po : bool) (sep syms : str) (rows : list prow) (idx : list nat),
+  item_ok al (IMatrix po sep syms rows) = true -> sym_indices al syms = Some idx ->
+  exists m, item_matrix al (IMatrix po sep syms rows) = Some m /\ length m = length rows /\
+  forall i, i < length rows ->
     let row := nth i m [] in
-    let toks := pr_toks (nth i (p_rows p) (mkRow [] [] [])) in
+    let toks := pr_toks (nth i rows (mkRow [] [] [])) in
     length row = alpha_k al /\
-    (forall j, j < length (p_syms p) ->
-       sym_index al (nth j (p_syms p) x00) = Some (nth j idx 0) /\
+    (forall j, j < length syms ->
+       sym_index al (nth j syms x00) = Some (nth j idx 0) /\
        nth (nth j idx 0) row CZero = CTok (nth j toks [])) /\
     (forall k, ~ In k idx -> nth k row CZero = CZero).
 Proof.
-  intros al p idx Hp Hne Hs. unfold expected_record. cbn [r_data]. rewrite Hs.
-  destruct (p_syms p) as [|c cs] eqn:Esy; [congruence|].
-  exists (build_matrix al idx (map pr_toks (p_rows p))). split; [reflexivity|].
+  intros al po sep syms rows idx Hok Hs. cbn [item_matrix]. rewrite Hs.
+  exists (build_matrix al idx (map pr_toks rows)). split; [reflexivity|].
   unfold build_matrix. rewrite !map_length. split; [reflexivity|].
   intros i Hi. cbv zeta.
-  assert (Hrow : nth i (map (build_row al idx) (map pr_toks (p_rows p))) [] =
-                 build_row al idx (pr_toks (nth i (p_rows p) (mkRow [] [] [])))).
+  assert (Hrow : nth i (map (build_row al idx) (map pr_toks rows)) [] =
+                 build_row al idx (pr_toks (nth i rows (mkRow [] [] [])))).
   { rewrite map_map. rewrite nth_indep with (d' := build_row al idx (pr_toks (mkRow [] [] [])));
       [|rewrite map_length; exact Hi].
     apply (map_nth (fun x => build_row al idx (pr_toks x))). }
-  rewrite Hrow. rewrite <- Esy in *.
-  unfold prec_ok in Hp. rewrite Esy in Hp. rewrite <- Esy in Hp.
-  apply andb_true_iff in Hp. destruct Hp as [_ Hp].
-  apply andb_true_iff in Hp. destruct Hp as [Hp Hrows].
-  apply andb_true_iff in Hp. destruct Hp as [Hp _].
-  apply andb_true_iff in Hp. destruct Hp as [Hp _].
-  apply andb_true_iff in Hp. destruct Hp as [_ Hnd].
-  assert (Hr : row_ok (length (p_syms p)) (nth i (p_rows p) (mkRow [] [] [])) = true).
+  rewrite Hrow. cbn [item_ok] in Hok.
+  apply andb_true_iff in Hok. destruct Hok as [Hok Hrows].
+  apply andb_true_iff in Hok. destruct Hok as [Hok _].
+  apply andb_true_iff in Hok. destruct Hok as [Hok _].
+  apply andb_true_iff in Hok. destruct Hok as [_ Hnd].
+  assert (Hr : row_ok (length syms) (nth i rows (mkRow [] [] [])) = true).
   { rewrite forallb_forall in Hrows. apply Hrows, nth_In, Hi. }
   unfold row_ok in Hr. apply andb_true_iff in Hr. destruct Hr as [Hr _].
   apply andb_true_iff in Hr. destruct Hr as [Hr _].
   apply andb_true_iff in Hr. destruct Hr as [_ Hlen]. apply Nat.eqb_eq in Hlen.
-  exact (build_row_spec al (p_syms p) idx _ Hs Hnd Hlen).
+  exact (build_row_spec al syms idx _ Hs Hnd Hlen).
 Qed.
 
+(* the expected record in closed form *)
+Definition pick {A} (o : option A) (d : option A) : option A := match o with Some v => Some v | None => d end.
+
+Lemma fold_apply_closed al : forall (p : prec) (r : record),
+  fold_left (apply_item al) p r =
+  mkRec (pick (last_field FID p) (r_id r)) (pick (last_field FAC p) (r_ac r))
+        (pick (last_field FNA p) (r_name r)) (pick (last_field FDE p) (r_desc r))
+        (pick (last_matrix al p) (r_data r)) (r_refs r ++ refs_of p).
+Proof.
+  induction p as [|it p IH]; intros r; [destruct r; cbn; rewrite app_nil_r; reflexivity|].
+  cbn [fold_left]. rewrite IH. cbn [last_field last_matrix refs_of].
+  destruct (last_field FID p), (last_field FAC p), (last_field FNA p), (last_field FDE p), (last_matrix al p);
+    destruct it as [num xref lines|[] v|k v| |po sep syms rows];
+    cbn [apply_item add_ref set_field item_matrix fieldk_eqb pick r_id r_ac r_name r_desc r_data r_refs];
+    try rewrite <- app_assoc; try reflexivity;
+    try (destruct (sym_indices al syms); reflexivity).
+Qed.
+
+Theorem expected_record_closed_lemma al (p : prec) :
+  expected_record al p =
+  mkRec (last_field FID p) (last_field FAC p) (last_field FNA p) (last_field FDE p) (last_matrix al p)
+        (refs_of p).
+Proof.
+  unfold expected_record. rewrite fold_apply_closed. cbn [empty_record r_id r_ac r_name r_desc r_data r_refs app].
+  destruct (last_field FID p), (last_field FAC p), (last_field FNA p), (last_field FDE p), (last_matrix al p);
+    reflexivity.
+Qed.
